@@ -1312,6 +1312,82 @@ func typedGen(s pbt.Src, thorough bool) TypedCase {
 	return c
 }
 
+// ViewsCase: one []any "row" is built from Row (entry >= 0: the int itself as a leaf; entry < 0: a []int leaf of -entry
+// elements counting up from 100*position); the nesting handed to the helper mentions the row SEVERAL times: the row
+// itself, prefixes of it (views of the same array that start at the same element) and a suffix, in the order given by
+// Use (each entry e: e%4 == 0 whole row, 1 prefix of length e/4 mod (len+1), 2 suffix from e/4 mod (len+1), 3 the row wrapped
+// in one more []any). A nesting may mention one container as often as it likes; every mention contributes its leaves.
+type ViewsCase struct {
+	Row []int `json:"row"`
+	Use []int `json:"use"`
+}
+
+func (c ViewsCase) build() (nest []any, leaves []int, desc string) {
+	row := make([]any, len(c.Row))
+	flat := make([][]int, len(c.Row))
+	for i, e := range c.Row {
+		if e >= 0 {
+			row[i], flat[i] = e, []int{e}
+		} else {
+			l := make([]int, ((-e)%4)+1)
+			for j := range l {
+				l[j] = 100*i + j
+			}
+			row[i], flat[i] = l, l
+		}
+	}
+	sum := func(lo, hi int) []int {
+		var out []int
+		for i := lo; i < hi; i++ {
+			out = append(out, flat[i]...)
+		}
+		return out
+	}
+	n := len(row)
+	for _, u := range c.Use {
+		if u < 0 {
+			u = -u
+		}
+		k := (u / 4) % (n + 1)
+		switch u % 4 {
+		case 0:
+			nest, leaves, desc = append(nest, row), append(leaves, sum(0, n)...), desc+" row"
+		case 1:
+			nest, leaves, desc = append(nest, row[:k]), append(leaves, sum(0, k)...), desc+fmt.Sprintf(" row[:%d]", k)
+		case 2:
+			nest, leaves, desc = append(nest, row[k:]), append(leaves, sum(k, n)...), desc+fmt.Sprintf(" row[%d:]", k)
+		default:
+			nest, leaves, desc = append(nest, []any{row}), append(leaves, sum(0, n)...), desc+" []any{row}"
+		}
+	}
+	return nest, leaves, fmt.Sprintf("row = %v; nesting = []any{%s }", row, desc)
+}
+
+func viewsGen(s pbt.Src, thorough bool) ViewsCase {
+	max := 5
+	if thorough {
+		max = 9
+	}
+	return ViewsCase{
+		Row: pbt.Seq(s, 1, max, func(s pbt.Src) int { return pbt.Range(s, -3, 6) }),
+		Use: pbt.Seq(s, 1, 4, func(s pbt.Src) int { return s.Intn(40) }),
+	}
+}
+
+func viewsProp(c ViewsCase, r *pbt.R) error {
+	if len(c.Row) > 64 || len(c.Use) > 16 {
+		return nil
+	}
+	nest, leaves, desc := c.build()
+	got, err := gogu.Union[int](nest)
+	want := refUnique(leaves)
+	if err != nil || !eq(got, want) {
+		return fmt.Errorf("%s: Union[int] = %v, %v; want %v (Unique of the leaves of every mention, left to right)", desc, got, err, want)
+	}
+	r.NonTrivialIf(len(c.Use) >= 2, "the row is mentioned at least twice")
+	return nil
+}
+
 func TestProp(t *testing.T) {
 	leaf := func(c int) Node { return Node{K: kLeaf, V: []int{c}} }
 	sl := func(c ...int) Node { return Node{K: kSlice, V: append([]int{}, c...)} }
@@ -1383,6 +1459,12 @@ func TestProp(t *testing.T) {
 				"int32 (= rune; negative values, surrogates, values above 0x10FFFF, U+FFFD, the extremes), uint8, [2]int8, struct{A int; B string} (values sharing one field), any (1, int64(1), \"1\", 1.0, nil, true, int8(1), [1]int{1}, struct{}{}: equal only with equal dynamic type), " +
 				"uint64 and int64 (values that collide after conversion to float64), float32 (neighbouring values), bool; key functions identity, constant, table neighbour. Random: 1..4 slices of up to 10 (24) elements over 2..12 table entries. Non-trivial as in single/tuple.",
 			Gen: typedGen, Prop: typedProp, OutOfEnum: func(TypedCase, bool) bool { return true },
+			RapidQuick: 1500, RapidThorough: 20000,
+		},
+		&pbt.Check[ViewsCase]{
+			Name: "views",
+			Rule: "Union[int] of a nesting that mentions ONE []any container several times: the container itself, prefixes of it (views of one array that start at the same element), suffixes, and the container wrapped once more; every mention contributes its leaves (ints and []int). Random: rows of 1..5 (9) entries, 1..4 mentions. Non-trivial = at least two mentions.",
+			Gen: viewsGen, Prop: viewsProp, OutOfEnum: func(ViewsCase, bool) bool { return true },
 			RapidQuick: 1500, RapidThorough: 20000,
 		},
 		&pbt.Check[ParCase]{
